@@ -148,6 +148,10 @@ pub struct DefaultGatherer {
     pub responses: Vec<(WorkerId, WorkerResponse)>,
     /// number of expected responses, excluding processing responses
     pub expected_responses: usize,
+    /// ids of the scattered requests that already got their final answer: a
+    /// worker answering the same request twice must not stand in for a worker
+    /// that has not answered at all
+    pub answered: HashSet<RequestId>,
 }
 
 #[allow(unused)]
@@ -184,6 +188,17 @@ impl Gatherer for DefaultGatherer {
         let ok_before = self.ok;
         let errors_before = self.errors;
         let responses_before = self.responses.len();
+        let is_final = matches!(
+            ResponseStatus::try_from(message.status),
+            Ok(ResponseStatus::Ok | ResponseStatus::Failure)
+        );
+        if is_final && !self.answered.insert(message.id.clone()) {
+            warn!(
+                "worker {} answered request {} more than once, ignoring the duplicate",
+                worker_id, message.id
+            );
+            return;
+        }
         match ResponseStatus::try_from(message.status) {
             Ok(ResponseStatus::Ok) => self.ok += 1,
             Ok(ResponseStatus::Failure) => self.errors += 1,
